@@ -244,6 +244,16 @@ func (sc *collection) doBuild(ctx context.Context) (Provider, error) {
 		}
 	}
 
+	// Every required dependency must be registered: a missing one would otherwise only surface as
+	// "service not found" when the dependent service is first resolved
+	if err := sc.validateDependencies(); err != nil {
+		return nil, &BuildError{
+			Phase:   "validation",
+			Details: "dependency validation failed",
+			Cause:   err,
+		}
+	}
+
 	// Phase 4: Create provider with fast ID generation
 	// Count void-return scoped descriptors for pre-allocation
 	voidCount := 0
@@ -768,6 +778,36 @@ func (r *collection) registerDescriptor(descriptor *Descriptor) error {
 
 	// Track in allDescriptors for efficient iteration
 	r.allDescriptors = append(r.allDescriptors, descriptor)
+
+	return nil
+}
+
+// validateDependencies ensures that every non-optional dependency of every registration is itself registered
+// or is one of the built-in injectables. Group dependencies may be empty and are not checked.
+func (c *collection) validateDependencies() error {
+	for _, descriptor := range c.allDescriptors {
+		if descriptor == nil {
+			continue
+		}
+
+		for _, dep := range descriptor.Dependencies {
+			if dep == nil || dep.Optional || dep.Group != "" {
+				continue
+			}
+
+			if _, isReserved := reservedTypes[dep.Type]; isReserved {
+				continue
+			}
+
+			if _, registered := c.services[TypeKey{Type: dep.Type, Key: dep.Key}]; !registered {
+				return &ResolutionError{
+					ServiceType: dep.Type,
+					ServiceKey:  dep.Key,
+					Cause:       ErrServiceNotFound,
+				}
+			}
+		}
+	}
 
 	return nil
 }
